@@ -1,0 +1,19 @@
+//go:build verif
+
+// Contracts for the verification machinery in /verif (comment-only; no declarations).
+// C10: the WebTransport listener's own gating call sites.
+
+package libp2pwebtransport
+
+//@ func (l *listener) httpHandler
+//@ prop C10
+//@ ensures called(httpHandlerWithConnScope, 0) && old(l.transport.gater) != nil ==> called(InterceptAccept, 0) && ret(InterceptAccept, 0, 0)
+//@ ensures called(OpenConnection, 0) && old(l.transport.gater) != nil ==> called(InterceptAccept, 0) && ret(InterceptAccept, 0, 0)
+//@ noframe
+
+//@ func (l *listener) httpHandlerWithConnScope
+//@ prop C10
+//@ ensures result == nil ==> sent(l.queue) > 0
+//@ ensures sent(l.queue) > 0 && old(l.transport.gater) != nil ==> called(InterceptSecured, 0) && ret(InterceptSecured, 0, 0) &&
+//@         arg(InterceptSecured, 0, 1) == network.DirInbound && arg(InterceptSecured, 0, 2) == sconn.RemotePeer() && arg(InterceptSecured, 0, 3) == sconn
+//@ noframe
